@@ -8,8 +8,7 @@ import copy
 import re
 
 from vivarium.library.dict_utils import (
-    deep_merge, deep_merge_multi_update, is_variable_update,
-    merge_variable_updates)
+    deep_merge, deep_merge_multi_update, merge_variable_updates)
 
 
 def get_in(d, path, default=None):
